@@ -65,6 +65,8 @@ Matches(e, o) ==
                           \/ o.k = "None" /\ e.runs = << >>          \* zero bytes requested
     \* an honestly announced shorter count followed by exactly that many right bytes (only offered after a filesystem fault)
     [] e.k = "ReadPrefix" -> o.k = "Read" /\ o.n >= 0 /\ o.n <= RunsLen(e.runs) /\ DataMatches(TruncRuns(e.runs, o.n), o.runs)
+    \* the right count was announced, a correct prefix followed and then the connection ended (only after a filesystem fault)
+    [] e.k = "ReadCut" -> o.k = "ReadCut" /\ o.n = RunsLen(e.runs) /\ RunsLen(o.runs) < o.n /\ DataMatches(TruncRuns(e.runs, RunsLen(o.runs)), o.runs)
     [] e.k = "RawPrefix" -> \/ o.k = "Raw" /\ o.len <= RunsLen(e.runs) /\ DataMatches(TruncRuns(e.runs, o.len), o.runs)
                             \/ o.k = "None"                          \* the empty prefix
     [] OTHER           -> o.k = e.k /\ FieldsMatch(e, o)
